@@ -249,7 +249,7 @@ impl Sub for Over {
         "DNA (generic, avx2, dispatch forced to each arm, DiscreteMatrix::score_position) and protein (generic) x matrices with finite non-wildcard cells (library / finite / small-int / near-tie), widths biased to >= 10 x sequences with the consensus or anti-consensus word embedded, wildcard windows; oracle b_i >= scale(r_i) strictly, and r_i >= t => b_i >= scale(t) for thresholds at/near real scores; non-trivial = some window's exact integer cell sum exceeds 255"
     }
     fn cases(&self, tier: Tier) -> u64 {
-        tier.pick(20_000, 1_000_000)
+        tier.pick(80_000, 2_000_000)
     }
     fn strategy(&self, tier: Tier) -> BoxedStrategy<Case> {
         strategy(tier)
